@@ -5,6 +5,7 @@ import (
 	"sort"
 	"strconv"
 	"strings"
+	"time"
 
 	"github.com/nuetzliches/hookaido/internal/config"
 )
@@ -297,8 +298,13 @@ func (sp *sizePlan) tasks() []func(w *worker) {
 	sort.SliceStable(ts, func(i, j int) bool { return ts[i].prio < ts[j].prio })
 	out := make([]func(w *worker), len(ts))
 	for i, t := range ts {
-		f := t.f
-		out[i] = func(w *worker) { w.withCensus(func() { f(w) }) }
+		f, name := t.f, "size_task_ms_"+prioNames[t.prio]
+		out[i] = func(w *worker) {
+			t0 := time.Now()
+			w.withCensus(func() { f(w) })
+			w.n[name] += time.Since(t0).Milliseconds() // diagnostics only (where the family's time goes)
+			w.n["size_tasks_run"]++
+		}
 	}
 	return out
 }
@@ -315,6 +321,8 @@ const (
 	prioThoroughLayout
 	prioThoroughMiB
 )
+
+var prioNames = []string{"quick_64k", "quick_count", "quick_layout", "quick_1mib", "thorough_small", "thorough_64k", "thorough_count", "thorough_layout", "thorough_1mib"}
 
 // ---- (1) long values ----------------------------------------------------------------------------
 
